@@ -69,6 +69,14 @@ def decorate(f, form, po=(), kwo=(), order='po_first', s=None, extra=(), exc=())
                 continue
             f = (modifiers.posoargs if kind == 'po' else modifiers.kwoargs)(*names)(f)
         return f
+    if form in ('names_over_start', 'names_over_end'):
+        # an explicit-names modifier applied on top of a start= / end= one
+        inner = modifiers.kwoargs(start=s)(f) if form == 'names_over_start' else modifiers.posoargs(end=s)(f)
+        if po:
+            inner = modifiers.posoargs(*po)(inner)
+        if kwo:
+            inner = modifiers.kwoargs(*kwo)(inner)
+        return inner
     if form == 'start':
         return modifiers.kwoargs(*extra, start=s)(f)
     if form == 'end':
@@ -172,12 +180,26 @@ def selections(base0, bound, rnd, nboth=8, nstart=6, nend=6, maxsel=2):
         yield dict(form='end', s=s, extra=x)
     for names in subs:
         yield dict(form='auto', exc=names)
+    # an explicit-names modifier stacked on a start= / end= one
+    one = [x for x in subs if len(x) == 1]
+    for _ in range(4):
+        if not one:
+            break
+        sname = rnd.choice(pool)
+        if rnd.random() < 0.5:
+            yield dict(form='names_over_start', s=sname, po=selfpo + rnd.choice(one))
+        else:
+            yield dict(form='names_over_end', s=sname, kwo=rnd.choice(one))
+    if bound:
+        yield dict(form='end', s='self', extra=[])
 
 
 def describe(e, case):
     key = json.dumps([e['base'], e['bound'], e['form'], e['po'], e['kwo'], e['order'], e['s'], e['extra'], e['exc']], sort_keys=True)
     n_ok = sum(1 for c in e['calls'] if c['ok'])
     what = {'names': 'posoargs%r kwoargs%r (%s)' % (tuple(e['po']), tuple(e['kwo']), e['order']), 'start': 'kwoargs(%s start=%r)' % (e['extra'], e['s']),
+            'names_over_start': 'posoargs%r kwoargs%r over kwoargs(start=%r)' % (tuple(e['po']), tuple(e['kwo']), e['s']),
+            'names_over_end': 'posoargs%r kwoargs%r over posoargs(end=%r)' % (tuple(e['po']), tuple(e['kwo']), e['s']),
             'end': 'posoargs(%s end=%r)' % (e['extra'], e['s']), 'auto': 'autokwoargs(exceptions=%r)' % (e['exc'],)}[e['form']]
     adv = next((absig.sig_str(a['ps']) for a in e['adv'] if a['tag'] == 'sig'), '-')
     text = '%s on %s def f%s -> %s, advertises %s; %d shapes called, %d accepted' % (
